@@ -168,6 +168,15 @@ func runC09(rc *sk.RunCtx, forceThief bool) {
 	mw := buildMesh(rc, meshOpts{minNodes: 3, maxNodes: 5, allowLighthouse: true, allowRelay: true, multiAddr: true, allowV1: true, allowP256: true, horizon: horizon,
 		extra: func(i int, spec *nodeSpec) {
 			_ = mwp
+			if claimer && spec.static != nil {
+				// every node can dial the address claimer that joins later (its index is the node count, 3..5) under
+				// either of its possible own addresses, so that the claimer also shows up as a RESPONDER
+				for k := 3; k <= 5; k++ {
+					if k != i {
+						spec.static[overlayAddr(k, 0).Addr().String()] = []string{underlayAddr(k, 0).String()}
+					}
+				}
+			}
 			if wrongResponder && i == 1 {
 				// node 1 believes node 2 lives at node 0's... pick the underlay address of a different node
 				spec.static[overlayAddr(2, 0).Addr().String()] = []string{underlayAddr(0, 0).String(), underlayAddr(2, 0).String()}
